@@ -1022,9 +1022,23 @@ func (g *fgen) vexpr(depth int) {
 		g.vleaf()
 		return
 	}
-	switch r.Intn(9) {
+	switch r.Intn(11) {
 	case 0, 1:
 		g.vleaf()
+	case 9:
+		// i8x16.shuffle with 16 lane indices below 32
+		g.vexpr(depth + 1)
+		g.vexpr(depth + 1)
+		imm := make([]byte, 16)
+		for i := range imm {
+			imm[i] = byte(r.Intn(32))
+		}
+		g.a.Vec(uint32(wasm.OpcodeVecV128i8x16Shuffle), imm)
+	case 10:
+		g.vexpr(depth + 1)
+		g.vexpr(depth + 1)
+		g.vexpr(depth + 1)
+		g.a.Vec(uint32(wasm.OpcodeVecV128Bitselect), nil)
 	case 2, 3, 4:
 		op := vecBin[r.Intn(len(vecBin))]
 		g.vexpr(depth + 1)
@@ -1111,6 +1125,32 @@ func (g *fgen) pressure(depth int) {
 	g.a.Call(f)
 	for range ft.Results {
 		g.a.Drop()
+	}
+	// v128 locals: combine them pairwise (binary ops and shuffles) and store the result to memory
+	if g.cfg.SIMD && g.m.HasMem {
+		var vs []uint32
+		for _, i := range used {
+			if g.locals[i] == V128 {
+				vs = append(vs, i)
+			}
+		}
+		if len(vs) >= 2 {
+			g.a.I32Const(uint32(16 * r.Intn(64)))
+			g.a.LocalGet(vs[0])
+			for _, i := range vs[1:] {
+				g.a.LocalGet(i)
+				if r.Intn(2) == 0 {
+					imm := make([]byte, 16)
+					for k := range imm {
+						imm[k] = byte(r.Intn(32))
+					}
+					g.a.Vec(uint32(wasm.OpcodeVecV128i8x16Shuffle), imm)
+				} else {
+					g.a.Vec(vecBin[r.Intn(len(vecBin))].opc, nil)
+				}
+			}
+			g.a.Vec(uint32(wasm.OpcodeVecV128Store), append(leb128.EncodeUint32(0), leb128.EncodeUint32(0)...))
+		}
 	}
 	// fold every local of each type into one and store it where it is observable
 	for _, t := range g.types() {
